@@ -1479,6 +1479,13 @@ pub fn post_constraint_kind(model: &mut Model, kind: &ConstraintKind) -> PropId 
     PropId(model.pending_constraint_asts.len() - 1)
 }
 
+/// Does a linear constraint range over at least one float variable?
+fn linear_has_float_var(model: &Model, vars: &[VarId]) -> bool {
+    vars.iter().any(|v| {
+        v.to_index() < model.vars.count() && matches!(model.vars[*v], crate::variables::Var::VarF(_))
+    })
+}
+
 /// Materialize a constraint AST into propagators
 /// This is the actual implementation that creates propagators from AST
 /// Called by Model::materialize_pending_asts() to convert delayed ASTs into propagators
@@ -1589,6 +1596,18 @@ pub(crate) fn materialize_constraint_kind(model: &mut Model, kind: &ConstraintKi
         // =================== Phase 2: Extended Constraint Types ===================
         
         ConstraintKind::LinearInt { coeffs, vars, op, constant } => {
+            // Integer coefficients do not make the constraint an integer constraint: `x.le(y)` or
+            // `lin_le(&[1, -1], &[x, y], 0)` over float variables has only integer literals. The
+            // IntLin* propagators cannot act on float variables (they return as soon as they meet
+            // one), so such a constraint is posted as the float linear constraint it is.
+            if linear_has_float_var(model, vars) {
+                return materialize_constraint_kind(model, &ConstraintKind::LinearFloat {
+                    coeffs: coeffs.iter().map(|&c| c as f64).collect(),
+                    vars: vars.clone(),
+                    op: op.clone(),
+                    constant: *constant as f64,
+                });
+            }
             match op {
                 ComparisonOp::Eq => model.props.int_lin_eq(coeffs.clone(), vars.clone(), *constant),
                 ComparisonOp::Le => model.props.int_lin_le(coeffs.clone(), vars.clone(), *constant),
@@ -1649,6 +1668,16 @@ pub(crate) fn materialize_constraint_kind(model: &mut Model, kind: &ConstraintKi
         }
         
         ConstraintKind::ReifiedLinearInt { coeffs, vars, op, constant, reif_var } => {
+            // Same as LinearInt: over float variables this is a float linear constraint
+            if linear_has_float_var(model, vars) {
+                return materialize_constraint_kind(model, &ConstraintKind::ReifiedLinearFloat {
+                    coeffs: coeffs.iter().map(|&c| c as f64).collect(),
+                    vars: vars.clone(),
+                    op: op.clone(),
+                    constant: *constant as f64,
+                    reif_var: *reif_var,
+                });
+            }
             match op {
                 ComparisonOp::Eq => model.props.int_lin_eq_reif(coeffs.clone(), vars.clone(), *constant, *reif_var),
                 ComparisonOp::Le => model.props.int_lin_le_reif(coeffs.clone(), vars.clone(), *constant, *reif_var),
